@@ -310,6 +310,71 @@ class HSealLM(SealMix, HookMix, LightNodeMixin):
         self.name = name
 
 
+class CoopMix:
+    """Hooks written cooperatively: each one records itself and then hands on to the next class in the MRO with super() -
+    which ends at the mixin's own (empty) hook methods; they are part of the documented interface of both mixins."""
+
+    __slots__ = ()
+
+    def _pre_detach(self, parent):
+        out = _rec().hook("pre_detach", self, parent)
+        super()._pre_detach(parent)
+        return out
+
+    def _post_detach(self, parent):
+        out = _rec().hook("post_detach", self, parent)
+        super()._post_detach(parent)
+        return out
+
+    def _pre_attach(self, parent):
+        out = _rec().hook("pre_attach", self, parent)
+        super()._pre_attach(parent)
+        return out
+
+    def _post_attach(self, parent):
+        out = _rec().hook("post_attach", self, parent)
+        super()._post_attach(parent)
+        return out
+
+    def _pre_detach_children(self, children):
+        out = _rec().hook("pre_detach_children", self, children)
+        super()._pre_detach_children(children)
+        return out
+
+    def _post_detach_children(self, children):
+        out = _rec().hook("post_detach_children", self, children)
+        super()._post_detach_children(children)
+        return out
+
+    def _pre_attach_children(self, children):
+        out = _rec().hook("pre_attach_children", self, children)
+        super()._pre_attach_children(children)
+        return out
+
+    def _post_attach_children(self, children):
+        out = _rec().hook("post_attach_children", self, children)
+        super()._post_attach_children(children)
+        return out
+
+    __repr__ = HookMix.__repr__
+    __str__ = HookMix.__repr__
+
+
+class HCoopNM(CoopMix, NodeMixin):
+    separator = "/"
+
+    def __init__(self, name):
+        self.name = name
+
+
+class HCoopLM(CoopMix, LightNodeMixin):
+    __slots__ = ("name",)
+    separator = "/"
+
+    def __init__(self, name):
+        self.name = name
+
+
 class HArmNM(HookMix, NodeMixin):
     """A class whose pre-hooks ARM the matching post-hook on the instance (a one-shot callback carrying a snapshot taken
     before the change): the post-hook that is on the node when the step has been made is the one that runs. The class-level
@@ -493,6 +558,8 @@ CLASSES = {
     "LateSuperNM": (lambda l: _nodes.LateSuperNM(_name(l)), "NM", False),
     "LockNM": (lambda l: LockNM(_name(l)), "NM", False),
     "HArmNM": (lambda l: HArmNM(_name(l)), "NM", True),
+    "HCoopNM": (lambda l: HCoopNM(_name(l)), "NM", True),
+    "HCoopLM": (lambda l: HCoopLM(_name(l)), "LM", True),
     "HSealNM": (lambda l: HSealNM(_name(l)), "NM", True),
     "HSealLM": (lambda l: HSealLM(_name(l)), "LM", True),
     "HSlotStoreNM": (lambda l: HSlotStoreNM(_name(l)), "NM", True),
